@@ -9,21 +9,28 @@ package control
 import (
 	"bytes"
 	"encoding/binary"
+	"encoding/json"
 	"fmt"
 	"go/ast"
+	"go/constant"
 	"go/parser"
 	"go/printer"
 	"go/token"
+	"go/types"
 	"net/netip"
 	"os"
 	"os/exec"
 	"path/filepath"
 	"reflect"
+	"regexp"
 	"sort"
 	"strconv"
 	"strings"
 	"testing"
+	"unsafe"
 
+	"github.com/cilium/ebpf"
+	"github.com/cilium/ebpf/rlimit"
 	"github.com/daeuniverse/dae/common"
 	"github.com/daeuniverse/dae/common/consts"
 	"github.com/daeuniverse/dae/component/outbound/dialer"
@@ -379,6 +386,7 @@ func c19CheckGenerator(m *vk.Monitor) {
 		m.Violation("generator/run", fmt.Sprintf("gen_ebpf_sync failed: %v: %s", err, out), nil)
 		return
 	}
+	c19GeneratorMalformedSpecs(m, bin, tmp, spec)
 	for _, rel := range []string{"common/consts/ebpf_generated.go", "control/kern/ebpf_sync_defs.h"} {
 		m.Eval(1)
 		got, _ := os.ReadFile(filepath.Join(root, rel))
@@ -564,9 +572,9 @@ func TestVerifC19(t *testing.T) {
 	}
 	m.Set("programs", programs)
 	m.Set("disagreements_checked", int(m.Counter("struct_pairs_compared")+m.Counter("constants_compared")+m.Counter("tuple_keys_compared")+m.Counter("connectivity_slots_probed")))
-	m.Require("struct_pairs_compared", "constants_compared", "generated_files_identical", "param_literal_fields", "sentinel_structs", "go_hostlayout_types")
+	m.Require("struct_pairs_compared", "constants_compared", "generated_files_identical", "param_literal_fields", "sentinel_structs", "go_hostlayout_types", "damaged_specs_tried")
 	if part != "stub" {
-		m.Require("tuple_keys_compared", "connectivity_slots_probed", "domain_keys_probed", "lpm_keys_probed", "lpm_key_bytes_compared", "tuple_keys_compared_reverse_hooks")
+		m.Require("tuple_keys_compared", "connectivity_slots_probed", "domain_keys_probed", "lpm_keys_probed", "lpm_key_bytes_compared", "tuple_keys_compared_reverse_hooks", "entry_point_lookups_hit/v4-after-v6", "entry_point_lookups_hit/v6-after-v4", "entry_point_lookups_hit/v4-after-v4")
 	}
 	m.Done(t)
 }
@@ -603,6 +611,12 @@ func c19KeysInAction(m *vk.Monitor, k *vk.KS, r interface{ IntN(int) int }) {
 	if _, err := verifLoadProgram(k, b.snap); err != nil {
 		m.Violation("keys/load", err.Error(), nil)
 		return
+	}
+	ent := c19NewEntryMaps()
+	if ent == nil {
+		m.Count("entry_point_real_maps_unavailable", 1)
+	} else {
+		defer ent.close()
 	}
 	// (1) flow-tuple keys: frames through the LAN hook; the key the C side used for
 	// conn_state_map / routing_handoff_map must equal bpfTuplesKeyFromAddrPorts byte for byte.
@@ -653,6 +667,13 @@ func c19KeysInAction(m *vk.Monitor, k *vk.KS, r interface{ IntN(int) int }) {
 		if found > 0 {
 			m.Count("tuple_keys_compared", int64(found))
 			m.Distinct(fmt.Sprintf("tuplekey|v6=%v|proto=%d", v6, f.Proto))
+		}
+		// the production READER of these entries: what the TC program stored under its key is copied
+		// verbatim into real kernel maps and looked up through controlPlaneCore.RetrieveRoutingResult,
+		// flow after flow on one goroutine with the families interleaved (whatever the reader keeps
+		// between two calls must not leak into the next key)
+		if ent != nil {
+			c19EntryLookup(m, k, ent, pr.Events, f)
 		}
 		// the reverse-direction hooks build their keys on another code path (get_tuples on a stack
 		// struct + copy_reversed_tuples): a connection opened from the WAN side is tracked under the
@@ -860,6 +881,221 @@ func c19KeysInAction(m *vk.Monitor, k *vk.KS, r interface{ IntN(int) int }) {
 }
 
 func ptr[T any](v T) *T { return &v }
+
+// c19GeneratorMalformedSpecs: the Go constants and the C header come from ONE spec; whatever the
+// generator does with a damaged spec (an element blanked, not an identifier, duplicated, dropped,
+// a value out of range), it must not hand out two files that number the same name differently.
+// Refusing the spec is fine; a Go file that does not type-check is counted, not judged.
+func c19GeneratorMalformedSpecs(m *vk.Monitor, bin, tmp string, spec []byte) {
+	var doc map[string]any
+	if err := json.Unmarshal(spec, &doc); err != nil {
+		m.Inconclusive("spec: %v", err)
+		return
+	}
+	clone := func() map[string]any {
+		var d map[string]any
+		b, _ := json.Marshal(doc)
+		_ = json.Unmarshal(b, &d)
+		return d
+	}
+	type mut struct {
+		what string
+		doc  map[string]any
+	}
+	var muts []mut
+	lists := make([]string, 0, len(doc))
+	for k := range doc {
+		lists = append(lists, k)
+	}
+	sort.Strings(lists)
+	for _, ln := range lists {
+		l, ok := doc[ln].([]any)
+		if !ok {
+			continue
+		}
+		for _, pos := range []int{0, 1, len(l) / 2, len(l) - 2, len(l) - 1} {
+			if pos < 0 || pos >= len(l) {
+				continue
+			}
+			for _, bad := range []string{"", "Source-Mac", " ", "9lives"} {
+				d := clone()
+				dl := d[ln].([]any)
+				switch e := dl[pos].(type) {
+				case string:
+					dl[pos] = bad
+				case map[string]any:
+					e["name"] = bad
+				}
+				muts = append(muts, mut{fmt.Sprintf("%s[%d] name=%q", ln, pos, bad), d})
+			}
+			d := clone()
+			dl := d[ln].([]any)
+			d[ln] = append(append([]any{}, dl[:pos]...), dl[pos+1:]...)
+			muts = append(muts, mut{fmt.Sprintf("%s[%d] dropped", ln, pos), d})
+			if pos+1 < len(l) {
+				d := clone()
+				dl := d[ln].([]any)
+				dl[pos+1] = dl[pos]
+				muts = append(muts, mut{fmt.Sprintf("%s[%d] duplicated over its successor", ln, pos), d})
+			}
+		}
+	}
+	reC := regexp.MustCompile(`(?m)^\s*(?:#define\s+)?([A-Za-z_][A-Za-z0-9_]*)\s*=?\s+(0x[0-9A-Fa-f]+|[0-9]+),?\s*$`)
+	m.Count("damaged_specs_tried", int64(len(muts)))
+	for i, mu := range muts {
+		root := filepath.Join(tmp, fmt.Sprintf("mal%d", i))
+		_ = os.MkdirAll(filepath.Join(root, "common", "consts"), 0o755)
+		_ = os.MkdirAll(filepath.Join(root, "control", "kern"), 0o755)
+		_ = os.WriteFile(filepath.Join(root, "go.mod"), []byte("module x\n"), 0o644)
+		b, _ := json.MarshalIndent(mu.doc, "", "  ")
+		_ = os.WriteFile(filepath.Join(root, "common", "consts", "ebpf_sync_spec.json"), b, 0o644)
+		run := exec.Command(bin)
+		run.Dir = root
+		out, err := run.CombinedOutput()
+		m.Eval(1)
+		if err != nil {
+			m.Count("generator_refused_damaged_spec", 1)
+			m.Distinct("generator-damaged|refused|" + strings.SplitN(mu.what, "[", 2)[0])
+			continue
+		}
+		goSrc, e1 := os.ReadFile(filepath.Join(root, "common/consts/ebpf_generated.go"))
+		hdr, e2 := os.ReadFile(filepath.Join(root, "control/kern/ebpf_sync_defs.h"))
+		if e1 != nil || e2 != nil {
+			m.Count("generator_accepted_damaged_spec_without_output", 1)
+			continue
+		}
+		m.Count("generator_accepted_damaged_spec", 1)
+		fset := token.NewFileSet()
+		f, perr := parser.ParseFile(fset, "ebpf_generated.go", goSrc, 0)
+		var goVals map[string]uint64
+		if perr == nil {
+			nerr := 0
+			conf := types.Config{Error: func(error) { nerr++ }}
+			pkg, _ := conf.Check("consts", fset, []*ast.File{f}, nil)
+			if pkg != nil && nerr == 0 { // a Go file the compiler rejects cannot reach a build: not judged
+				goVals = map[string]uint64{}
+				for _, n := range pkg.Scope().Names() {
+					if c, ok := pkg.Scope().Lookup(n).(*types.Const); ok {
+						if v, ok := constant.Uint64Val(constant.ToInt(c.Val())); ok {
+							goVals[n] = v
+						}
+					}
+				}
+			}
+		}
+		if goVals == nil {
+			m.Count("generator_output_go_file_does_not_compile", 1)
+			continue
+		}
+		cVals := map[string]uint64{}
+		for _, mm := range reC.FindAllStringSubmatch(string(hdr), -1) {
+			if v, err := strconv.ParseUint(mm[2], 0, 64); err == nil {
+				cVals[mm[1]] = v
+			}
+		}
+		compared := 0
+		for n, cv := range cVals {
+			gv, ok := goVals[n]
+			if !ok {
+				continue // the two files name some constants differently; only common names are judged
+			}
+			compared++
+			if gv != cv {
+				m.Violation("generator/damaged-spec-go-and-c-disagree", fmt.Sprintf("from one spec (%s) gen_ebpf_sync wrote %s = %d into the Go constants and %s = %d into the C header", mu.what, n, gv, n, cv),
+					map[string]any{"damage": mu.what, "spec": string(b), "go": string(goSrc), "header": string(hdr), "generator_output": string(out)})
+				return
+			}
+		}
+		m.Count("damaged_spec_common_constants_compared", int64(compared))
+		m.Distinct("generator-damaged|accepted|" + strings.SplitN(mu.what, "[", 2)[0])
+	}
+}
+
+// c19EntryMaps are real kernel maps with the key/value sizes of conn_state_map and
+// routing_handoff_map behind a controlPlaneCore, so that RetrieveRoutingResult runs unmodified.
+type c19EntryMaps struct {
+	conn, handoff *ebpf.Map
+	core          *controlPlaneCore
+}
+
+func c19NewEntryMaps() *c19EntryMaps {
+	_ = rlimit.RemoveMemlock()
+	var k bpfTuplesKey
+	var cs bpfConnState
+	var he bpfRoutingHandoffEntry
+	// value sizes as the ebpf library marshals these Go types (the declarations synthesised for this
+	// build carry no explicit tail padding, so that is what Lookup can decode); the keys are what is judged
+	conn, err := ebpf.NewMap(&ebpf.MapSpec{Name: "c19_conn_state", Type: ebpf.Hash, KeySize: uint32(unsafe.Sizeof(k)), ValueSize: uint32(binary.Size(cs)), MaxEntries: 4096})
+	if err != nil {
+		return nil
+	}
+	handoff, err := ebpf.NewMap(&ebpf.MapSpec{Name: "c19_handoff", Type: ebpf.Hash, KeySize: uint32(unsafe.Sizeof(k)), ValueSize: uint32(binary.Size(he)), MaxEntries: 4096})
+	if err != nil {
+		_ = conn.Close()
+		return nil
+	}
+	core := &controlPlaneCore{log: verifQuietLog()}
+	core.bpf.Store(&bpfObjects{bpfMaps: bpfMaps{ConnStateMap: conn, RoutingHandoffMap: handoff}})
+	return &c19EntryMaps{conn: conn, handoff: handoff, core: core}
+}
+
+func (e *c19EntryMaps) close() { _ = e.conn.Close(); _ = e.handoff.Close() }
+
+func c19EntryLookup(m *vk.Monitor, k *vk.KS, ent *c19EntryMaps, events []vk.KEvent, f vk.Frame) {
+	var zero bpfTuplesKey
+	ksz := int(unsafe.Sizeof(zero))
+	expect := false
+	var stored []string
+	for _, e := range events {
+		if e.Kind != 1 || len(e.Key) != ksz {
+			continue
+		}
+		if val, ok := k.MapGet("conn_state_map", e.Key); ok && len(val) == int(unsafe.Sizeof(bpfConnState{})) {
+			if err := ent.conn.Update(e.Key, val[:ent.conn.ValueSize()], ebpf.UpdateAny); err != nil {
+				m.Count("entry_point_real_map_update_failed", 1)
+				return
+			}
+			cs := (*bpfConnState)(unsafe.Pointer(&val[0]))
+			if cs.Meta.Data.HasRouting != 0 {
+				expect = true
+				stored = append(stored, fmt.Sprintf("conn_state_map[%x] outbound=%d mark=%d", e.Key, cs.Meta.Data.Outbound, cs.Meta.Data.Mark))
+			}
+		}
+		if val, ok := k.MapGet("routing_handoff_map", e.Key); ok && len(val) == int(unsafe.Sizeof(bpfRoutingHandoffEntry{})) {
+			// the entry's age is judged against the machine's monotonic clock: stamp it as just seen
+			if now, err := monotonicNowNano(); err == nil {
+				(*bpfRoutingHandoffEntry)(unsafe.Pointer(&val[0])).LastSeenNs = now
+			}
+			if err := ent.handoff.Update(e.Key, val[:ent.handoff.ValueSize()], ebpf.UpdateAny); err != nil {
+				m.Count("entry_point_real_map_update_failed", 1)
+				return
+			}
+			expect = true
+			stored = append(stored, fmt.Sprintf("routing_handoff_map[%x]", e.Key))
+		}
+	}
+	if !expect {
+		m.Count("entry_point_flows_without_stored_routing", 1)
+		return
+	}
+	m.Eval(1)
+	res, err := ent.core.RetrieveRoutingResult(netip.AddrPortFrom(f.Src, f.Sport), netip.AddrPortFrom(f.Dst, f.Dport), f.Proto)
+	fam := "v4"
+	if f.Src.Is6() {
+		fam = "v6"
+	}
+	if err != nil || res == nil {
+		m.Violation("keys/entry-point-lookup-miss", fmt.Sprintf("RetrieveRoutingResult does not find the routing result the TC program stored for this flow: %v", err),
+			map[string]any{"frame": f.String(), "stored": stored, "previous_lookup_family": c19PrevEntryFamily})
+		c19PrevEntryFamily = fam
+		return
+	}
+	m.Count("entry_point_lookups_hit/"+fam+"-after-"+c19PrevEntryFamily, 1)
+	m.Distinct("entry-lookup|" + fam + "-after-" + c19PrevEntryFamily + fmt.Sprintf("|proto=%d", f.Proto))
+	c19PrevEntryFamily = fam
+}
+
+var c19PrevEntryFamily = "none"
 
 func addrSlice(a netip.Addr) []byte {
 	b := a.As16()
